@@ -58,6 +58,8 @@ func (c *Contract) get(kind string) []*Clause {
 	return out
 }
 
+var externMethodRE = regexp.MustCompile(`^[\w/]+\.\(\*?\w+\)\.\w+\(`)
+
 var labelRE = regexp.MustCompile(`^([a-zA-Z][a-zA-Z0-9_\-]*)(?:\s+without\s+([a-zA-Z0-9_,#\-]+))?:\s+(.*)$`)
 
 // setLabel splits "label [without a,b]: expr".
@@ -106,6 +108,9 @@ func parseContracts(pkg *packages.Package) ([]*Contract, error) {
 					cur = &Contract{kind: word, pkg: pkg, pos: pos, mode: "proved"}
 					if word == "extern" {
 						i := strings.IndexByte(rest, '(')
+						if m := externMethodRE.FindStringIndex(rest); m != nil {
+							i = m[1] - 1 // pkg.(*T).Method(...): the signature starts after the method name
+						}
 						if i < 0 {
 							return nil, fmt.Errorf("%s: extern needs a signature", pos)
 						}
@@ -160,7 +165,7 @@ func parseContracts(pkg *packages.Package) ([]*Contract, error) {
 				case "trusted":
 					cur.trusted = rest
 					cur.mode = "assumed"
-				case "requires", "ensures", "modifies", "assert":
+				case "requires", "ensures", "ensures-assumed", "modifies", "assert":
 					cl := &Clause{kind: word, text: rest, pos: pos}
 					if word != "modifies" {
 						cl.setLabel(rest)
